@@ -172,3 +172,46 @@ def _linear_to_bytes(_bl, NoTracing):
             return _bl.SymbolicBytes(arr)
 
     _bl.SymbolicInt.to_bytes = to_bytes
+
+
+def exact_pow2_truediv():
+    """7. int / (concrete power of two) for |int| < 2**53 is *exact* in binary64, so the real-number model is not an
+    approximation there and need not cap the verdict at 'unknown'.  (E3 lemma vf/p_c04.py: fp_division_lemma.)
+    Any further float arithmetic on the result falls back to CrossHair's capped RealBasedSymbolicFloat."""
+    import z3
+    from crosshair.tracers import NoTracing
+    from crosshair.libimpl import builtinslib as _bl
+    from crosshair.libimpl.builtinslib import SymbolicValue
+
+    class ExactRealFloat(_bl.RealBasedSymbolicFloat):
+        def __init__(self, smtvar, typ=float):
+            SymbolicValue.__init__(self, smtvar, typ)          # no cap_result_at_unknown()
+
+    orig = _bl.SymbolicInt.__truediv__
+
+    def __truediv__(self, other):
+        with NoTracing():
+            exact = type(other) is int and other in (1, 2, 4, 8, 16, 32, 64) and hasattr(self, 'var')
+        if exact and -(2 ** 53) < self < 2 ** 53:
+            with NoTracing():
+                return ExactRealFloat(z3.ToReal(self.var) / z3.RealVal(other))
+        return orig(self, other)
+
+    _bl.SymbolicInt.__truediv__ = __truediv__
+
+    # int(<exact real>) must stay symbolic (the library model realises every non-int symbolic)
+    import crosshair.core as _core
+    orig_int = _core._PATCH_REGISTRATIONS[int]
+    _MISSING = _bl._MISSING
+
+    def _int(val=0, base=_MISSING):
+        with NoTracing():
+            exact = type(val) is ExactRealFloat and base is _MISSING
+            if exact:
+                return val.__int__()
+            from crosshair.util import CrossHairValue
+            if not isinstance(val, CrossHairValue) and not isinstance(base, CrossHairValue):
+                return int(val) if base is _MISSING else int(val, base)       # concrete: natively, untraced
+        return orig_int(val) if base is _MISSING else orig_int(val, base)
+
+    _core._PATCH_REGISTRATIONS[int] = _int
